@@ -388,9 +388,11 @@ func (e *Engine) simple(st *State, fr *Frame, ins ssa.Instruction) bool {
 		from, to := x.X.Type().Underlying(), x.Type().Underlying()
 		fb, fok := from.(*types.Basic)
 		tb, tok := to.(*types.Basic)
-		if fok && tok && fb.Info()&types.IsInteger != 0 && tb.Info()&types.IsInteger != 0 {
-			fr.env[x] = v // integer width changes are ignored by the abstraction
+		if fok && tok && fb.Kind() == tb.Kind() {
+			fr.env[x] = v // same representation (named vs underlying type)
 		} else if fok && tok && fb.Info()&types.IsString != 0 && tb.Info()&types.IsString != 0 {
+			fr.env[x] = v
+		} else if v.IsConstInt() && tok && tb.Info()&types.IsInteger != 0 {
 			fr.env[x] = v
 		} else {
 			fr.env[x] = Conv(x.Type(), v)
